@@ -104,7 +104,9 @@ def cmd_run(sid, props, tier='quick', seed='1'):
     sdir = os.path.join(SEEDED, sid)
     with open(os.path.join(sdir, 'meta.json')) as fil:
         meta = json.load(fil)
-    props = props or [meta['property']]
+    # (a change made for one property may only be visible to the check of
+    # the property that covers its mechanism: meta.json says so)
+    props = props or meta.get('check_with') or [meta['property']]
     tmp, dst = scratch_copy(os.path.join(sdir, 'patch.diff'))
     results = {}
     try:
